@@ -245,3 +245,27 @@ for _id, (_t, _l) in ROUND8.items():
         if _t:
             t = t + " + " + _t
         CLAIMED[_id] = (t, text + _l, note, ref)
+
+ROUND9 = {
+ "C01": ("", " Shared R08.3 and R03.6."),
+ "C02": ("", " Shared R06.5 and R04.12."),
+ "C04": ("no-decision-on-loop-carried-state rule for loops over maps, provenance rule for dictionary look-ups", " R04.12: the tokenizer asks the dictionary for the id of the cleaned word itself, never of a string computed from it. R04.13: inside a loop over a map no branch depends on a map the loop itself fills (unless whole values are de-duplicated)."),
+ "C05": ("single-exit rule for loops over a candidate's lines", " R05.11: a loop bounded by a candidate's EndLine has that test as its only exit. Shared R08.1/R08.2."),
+ "C06": ("whole-word rule for the spelling table", " R06.18: the key of the spelling look-up is the word returned on a miss, and a hit returns the table's value itself. Shared R03.13 and R04.12."),
+ "C10": ("buffer-copy-in-loop rule, growing-list re-scan rule", " R10.10: (*bytes.Buffer).String is not called inside the loop that fills the buffer. R10.11: no loop re-walks on every round a list that the enclosing loop extends (fails at three sites on the pinned tree, known finding D54). Shared R04.11."),
+ "C11": ("same-predicate rule for number words, single-writer rule for dictionary maps", " R11.14: the number path of cleanupToken selects its runes with unicode.IsDigit, the predicate that chose the path. R11.15: the word maps of a dictionary are assigned only where it is created. Shared R06.10."),
+ "C12": ("dominance rule for calls that take the classifier", " R12.13: inside the loop over the files every call that is handed the classifier stands behind the test of the number of path segments."),
+ "C13": ("no-rounding rule, inclusive-threshold rule, parameter-purity rule for New, hit-verification rule", " R13.14: no function of the package rounds a floating-point value. R13.15: every comparison with the classifier's threshold keeps equality on the accepting side. R13.16: New never merges its normaliser parameter with another list. R13.17: a hit of the regular expression is compared with the value's bytes (fails on the pinned tree, known finding D53)."),
+ "C14": ("release-on-every-exit rule for locks", " R14.15: behind every Lock/RLock each path to a return passes the matching release, or the release is deferred."),
+ "C15": ("must-pass-through rule for registration, Add-before-go rule, byte-for-byte provenance rule", " R15.17: no path from the second read of an archive entry pair back to the loop head avoids the registration. R15.18: no goroutine calls Add on a wait group of its parent. R15.19: between the file reader and the cut-off/normaliser chain the bytes pass through conversions only. Shared R16.4."),
+ "C16": ("control-dependence rule for nil results", " R16.6: License.NearestMatch returns nil only under the common-words gate or a nil result of the classifier. Shared R15.17."),
+ "C18": ("evaluated delimiter facts, no-case-folding rule", " R18.22: the evaluated line and block comment delimiters of 22 well-known languages are those of the language. R18.23: no function of the lexer package calls a case-folding function."),
+ "C19": ("flow rule for the context error, no-library-globals rule", " R19.18: the branch of a select taken on ctx.Done() returns a value built from ctx.Err(). R19.19: no function of the tool stores into a package-level variable of a library package."),
+ "C20": ("leaf rule for Equal, unconditional-exchange rule for Swap, departure report rule for Pop", " R20.12: what Equal returns is computed from look-ups, sizes and predicates of the package. R20.13: in front of Swap's stores and reports stand only the nil guard and comparisons of the two indices. R20.14: Pop reports a negative index to the element it returns (D52)."),
+}
+for _id, (_t, _l) in ROUND9.items():
+    if _id in CLAIMED:
+        t, text, note, ref = CLAIMED[_id]
+        if _t:
+            t = t + " + " + _t
+        CLAIMED[_id] = (t, text + _l, note, ref)
